@@ -106,8 +106,6 @@ kf("C09", "C09-const-array-element-store", "`out[0] = positions[1]` with positio
    ["C09|store-type|*|corpus/mesh-shader"])
 kf("C09", "C09-cmpxchg-result-member-emit", "members of the atomicCompareExchangeWeak result used in a later statement are not covered by a dominating Emit",
    ["C09|emit-dominates|*|atomics_workgroup_barriers"])
-kf("C09", "C09-emit-after-return", "an Emit statement is left after a Return in the same block when an entry point ends with `return;` followed by the harness's trailing store (F2 entry position)",
-   ["C09|after-terminator|*ir.StmtEmit follows ir.StmtReturn*|F2/entry"])
 
 json.dump(K, open("known_findings.json", "w"), indent=1)
 print(len(K), "entries")
